@@ -872,7 +872,11 @@ class RunLengthRaggedArray(RunLength2dArray, IndexableMixin):
     def mean(self, axis=-1, **kwargs):
         if axis in (0, -2):
             return self.sum(axis=0)/self.col_counts()
-        s = self.sum(axis=-1)
+        me = self
+        if np.issubdtype(self._values.dtype, np.integer):
+            # the total of a row of 64-bit integers need not fit 64 bits; numpy averages integers in doubles as well
+            me = self.__class__(self._indices, self._values.astype(float), self._row_len)
+        s = me.sum(axis=-1)
         l = self._row_len
         if self._row_len is None:
             l = self._indices[:, -1]
